@@ -122,6 +122,13 @@ def find_funcs(prog, pred):
     return [f for f in prog.funcs.values() if pred(f)]
 
 
+def is_log_stmt(s):
+    """`LOG.<level>(...)` / `wf_trace.<level>(...)` as a statement."""
+    return isinstance(s, ast.Expr) and isinstance(s.value, ast.Call) and \
+        (dotted(s.value.func) or '').split('.')[0] in ('LOG', 'wf_trace',
+                                                       'logging')
+
+
 def first_stmt_index(body):
     """Index of first non-docstring statement."""
     if body and isinstance(body[0], ast.Expr) and \
